@@ -209,6 +209,7 @@ def main(argv):
     for sig in sorted(viol_n):
         if sig in open_known:
             f = open_known[sig]
+            write_replay(pid, sig, viol[sig][0])
             lines.append(f"KNOWN-FINDING: property={pid} {f['id']} [{sig}] {f['what']} ({viol_n[sig]} cases in this run)")
         else:
             exit_code = 1
